@@ -1,6 +1,7 @@
 package main
 
 import (
+	"encoding/json"
 	"fmt"
 	"regexp"
 	"sort"
@@ -240,7 +241,7 @@ func runC06(e *env) {
 		prof.Generics = false
 		specs = append(specs, synthModule(e.r, prof, i))
 	}
-	obs := observeAll(specs, "dart", 14)
+	obs := observeAll(specs, "dart,decls", 14)
 	var cases []string
 	var inputs []interface{}
 	for i, o := range obs {
@@ -295,7 +296,7 @@ func runC06(e *env) {
 			}
 			enums = append(enums, fmt.Sprintf("{| de_name := %s; de_members := %s; de_values := %s; de_iota := %s; de_file := %s |}", coqStr(en.Name), coqStrList(en.Members), vals, coqBool(en.Iota), coqStr(en.File)))
 		}
-		cases = append(cases, fmt.Sprintf("{| c6_root := %s;\n c6_prog := %s;\n c6_enums := %s;\n c6_ana := %s;\n c6_files := %s;\n c6_classes := %s;\n c6_unions := %s;\n c6_denums := %s |}",
+		cases = append(cases, fmt.Sprintf("{| c6_root := %s;\n c6_prog := %s;\n c6_enums := %s;\n c6_ana := %s;\n c6_dl := "+dartDeclLists(o)+";\n c6_files := %s;\n c6_classes := %s;\n c6_unions := %s;\n c6_denums := %s |}",
 			coqStr(o.Gen["dart_root"].Text), o.Facts, o.Enums, o.Ana, coqListNL(files), coqListNL(classes), coqListNL(unions), coqListNL(enums)))
 		inputs = append(inputs, map[string]interface{}{"module": spec, "files": ir.Files, "classes": ir.Classes, "unions": ir.Unions, "enums": ir.Enums, "class": firstNonEmpty(spec.Class, classifyDartLinks(ir, o))})
 		if len(cases) == 4 {
@@ -401,4 +402,47 @@ func firstNonEmpty(a, b string) string {
 		return a
 	}
 	return b
+}
+
+// dartDeclLists renders, per output file, the identifiers of the declarations the real Dart generator hands to
+// WriteDeclarations (header and import block excluded) and the files named by its import block.
+func dartDeclLists(o *obsResult) string {
+	d := o.Gen["decls"]
+	if d.Outcome != "ok" {
+		return "None"
+	}
+	var lists map[string][]c19decl
+	if err := json.Unmarshal([]byte(d.Text), &lists); err != nil {
+		return "None"
+	}
+	var names []string
+	for k := range lists {
+		if strings.HasPrefix(k, "dart:") {
+			names = append(names, k)
+		}
+	}
+	if len(names) == 0 {
+		return "None"
+	}
+	sort.Strings(names)
+	var out []string
+	for _, k := range names {
+		var ids, imps []string
+		for _, decl := range lists[k] {
+			switch decl.ID {
+			case "aa_header":
+			case "aa_imports":
+				for _, line := range strings.Split(decl.Content, "\n") {
+					line = strings.TrimSpace(line)
+					if strings.HasPrefix(line, "import '") && strings.HasSuffix(line, "';") {
+						imps = append(imps, line[len("import '"):len(line)-2])
+					}
+				}
+			default:
+				ids = append(ids, decl.ID)
+			}
+		}
+		out = append(out, fmt.Sprintf("(%s, (%s, %s))", coqStr(strings.TrimPrefix(k, "dart:")), coqStrList(ids), coqStrList(imps)))
+	}
+	return "(Some " + coqListNL(out) + ")"
 }
